@@ -254,8 +254,8 @@ def state_list(tier):
     if tier == "thorough":
         states.append({"seed": "light", "ops": []})
         for h in explorer.enumerate_histories("mini", 2, THIN, follow=explorer.same_entity_or_reopen):
-            if len(h) == 2 and h[-1][0] != "reopen" and h[0][0] != "reopen":
-                states.append({"seed": "mini", "ops": h})
+            if len(h) == 2 and h[-1][0] not in ("reopen", "set") and h[0][0] not in ("reopen", "set"):
+                states.append({"seed": "mini", "ops": h})       # attribute values do not influence refusals: structural ops only
         for h in explorer.enumerate_histories("block", 1, THIN):
             if h[-1][0] != "reopen":
                 states.append({"seed": "block", "ops": h})
